@@ -35,6 +35,9 @@ class Config:
         self.tier = kw.get("tier", "quick")
         self.use_fallback = kw.get("use_fallback", True)
         self.concrete = kw.get("concrete", False)
+        # budget of the full (sequence-aware) solver for branch feasibility / consistency checks; an
+        # "unknown" there only means that a possibly infeasible path is explored (sound, slower)
+        self.feas_timeout_ms = kw.get("feas_timeout_ms", 1500)
 
 
 class Obl:
@@ -111,7 +114,12 @@ class PathCtx:
         if self.seq_free(term):
             self.lia.add(term)
         if check:
-            if self.lia.check() == z3.unsat or self._check() == z3.unsat:
+            if self.lia.check() == z3.unsat:
+                raise PathInfeasible()
+            self.solver.set("timeout", min(self.cfg.branch_timeout_ms, self.cfg.feas_timeout_ms))
+            r = self._check()
+            self.solver.set("timeout", self.cfg.branch_timeout_ms)
+            if r == z3.unsat:
                 raise PathInfeasible()
 
     def seq_free(self, t):
@@ -195,7 +203,7 @@ class PathCtx:
         can_t = not self._lia_unsat(term)
         can_f = can_t and not self._lia_unsat(nterm)
         if can_t and can_f:
-            self.solver.set("timeout", min(self.cfg.branch_timeout_ms, 1500))
+            self.solver.set("timeout", min(self.cfg.branch_timeout_ms, self.cfg.feas_timeout_ms))
             can_f = self._check(nterm) != z3.unsat
             if can_f:
                 can_t = self._check(term) != z3.unsat
@@ -321,4 +329,8 @@ def explore(run_path, cfg: Config):
         res.notes = ctx.notes
         results.append(res)
         work.extend(ctx.alternatives)
+        if os.environ.get("PYVC_TRACE"):
+            import sys
+            print(f"[path {len(results)} end={res.end[:80]} decisions={len(res.decisions)} obls={[(o.label, o.status, round(o.secs, 1)) for o in res.obls]} "
+                  f"solver={res.solver_secs:.1f}s calls={res.solver_calls} queue={len(work)}]", file=sys.stderr)
     return results
